@@ -105,7 +105,7 @@ def run(F, R):
                 if not ok:
                     bad.append(lib.loc(bv, a))
             R.check("C09-R2", "outer-loop-exhaustive", not bad and exits, "the only exit of the app loop is iterator exhaustion", "the loop over the apps can be left early at %s: later apps are not updated" % bad)
-            eqE = [(a, b) for (a, b, tr) in bv.bool_edges(lambda t: t[0] == "call" and t[1] == "std::cmp::PartialEq::eq") if tr]
+            eqE = lib.equal_edges(bv, lambda t: True)
             eq_terms = set(terms.render(bv, bv.trace_op(bv.blocks[a]["t"]["o"]), W, {}) for (a, b) in eqE)
             ok_eq = len(eq_terms) == 1 and all(".id" in t and ".app_id" in t for t in eq_terms)
             R.check("C09-R2", "guard-is-id-equality", ok_eq, str(sorted(eq_terms)), "the routing guard is not app.id == app_response.app_id: %s" % sorted(eq_terms))
